@@ -38,6 +38,24 @@ CHECKS.update({
  "C17": tv("Structure of the plain graph, its reversal and double reversal, all-pairs reachability and cycle flags vs the Lean port; oracles: DOT stability, flip, path duality, lookup, flags.", "DESIGN.md §6.17", TV_NOTE),
 })
 
+CHECKS.update({
+ "C08": dict(category="translation_validation",
+   text="PARTIAL. Decided here: the hand-written listener never panics on the real, error-recovered parse trees of fuzzed inputs (the Lean listener port, which makes every nil dereference / nil-map write / index explicit, walks the same trees and must agree on panic and error list), no public entry point panics or exceeds the watchdog on mutated corpus inputs and degenerate protobuf models, and a syntax error is always returned as an error. NOT decided by this family: the quadratic work bound (a property of ANTLR's adaptive prediction and lexer simulation, which no model here executes) - a conservative scaling probe runs as search only and its two hits are a listed known finding - and the totality of yaml.v3 / protojson.",
+   design_ref="DESIGN.md §6.8",
+   note="fuzzing and the scaling probe are search, not proof; ANTLR runtime, yaml.v3, protojson are parameters",
+   technique="differential correspondence of the Lean listener model on real error-recovered parse trees + panic/timeout oracles under mutation fuzzing (search)"),
+ "C13": dict(category="other",
+   text="PARTIAL. Function-of-arguments is immediate for the Lean model (pure functions); what carries content is that the real code agrees with itself and with the model under every history and interleaving tried: the same operation list is executed sequentially (arguments compared before/after: inputs untouched), in a cold child process, in a child warmed by hundreds of unrelated inputs, and from 8 goroutines in a -race build sharing one read-only model. Data-race freedom and cache-history independence are runtime facts no Lean model exhibits; the race detector and the cold/warm comparison are monitors, not proofs.",
+   design_ref="DESIGN.md §6.13",
+   note="Go race detector (dynamic), ANTLR runtime caches, Go scheduler: exercised, not modelled",
+   technique="schedule- and history-varied correspondence (cold / warm / concurrent -race) + frame oracles"),
+ "C19": dict(category="proof",
+   text="Equality of the serialized lexer and parser automata of the Go, JS and Java packages and of the six .interp files, equality of all vocabulary tables (literal, symbolic, rule, mode names, .tokens numbers) across packages and with the names declared in the two .g4 files, and existence of a grammar rule for every callback of the Go listener, are Lean theorems decided by kernel evaluation over tables re-extracted from /repo on every run. A hand edit of one generated parser, or a vocabulary change not regenerated everywhere, breaks a theorem.",
+   design_ref="DESIGN.md §6.19",
+   note="the extractor tools/gen_atn.py is trusted (it reads one automaton from three concrete syntaxes, which cross-validates it; its Go tables are also compared with the compiled package in-process); that equal automata mean equal behaviour is the ANTLR runtimes' contract; the JS and Java packages cannot be executed here; an edit of a .g4 rule *body* that is not regenerated is not detected by these theorems (no .g4-to-ATN translator yet)",
+   technique="Lean 4 theorems by kernel evaluation (decide +kernel) over regenerated finite tables"),
+})
+
 NOT_YET = {}
 
 def main():
